@@ -408,6 +408,12 @@ string Subprocess::communicate(
     } else {
       timeout_ms = -1;
     }
+    // The exit of the process does not wake poll() up if another process (a
+    // background job it started) still holds the other ends of the pipes open,
+    // so never wait longer than a second before checking on it again
+    if ((timeout_ms < 0) || (timeout_ms > 1000)) {
+      timeout_ms = 1000;
+    }
     auto events = p.poll(timeout_ms);
 
     if (events.count(this->stdout_read_fd)) {
